@@ -5,6 +5,7 @@ import (
 	"fmt"
 	"os"
 	"path/filepath"
+	"sort"
 	"strings"
 	"sync"
 	"time"
@@ -220,6 +221,34 @@ func minimiseAndReport(bt *builtTree, prop, tier string, seed uint64, f *found) 
 	}
 	for cycle := 0; cycle < 6 && !out(); cycle++ {
 		progress := false
+		// whole units first (tasks, cycles, operations), largest first; the
+		// spans are those of the current effective tape, recomputed by every
+		// accepted replay.
+		for again := true; again && !out(); {
+			again = false
+			spans := append([][2]int{}, cur.ProgramSpans...)
+			sort.Slice(spans, func(i, j int) bool {
+				li, lj := spans[i][1]-spans[i][0], spans[j][1]-spans[j][0]
+				if li != lj {
+					return li > lj
+				}
+				return spans[i][0] < spans[j][0]
+			})
+			for at := 0; at < len(spans) && !out(); at += par {
+				end := at + par
+				if end > len(spans) {
+					end = len(spans)
+				}
+				var batch []edit
+				for _, sp := range spans[at:end] {
+					batch = append(batch, edit{0, edDelete, sp[0], sp[1] - sp[0]})
+				}
+				if try(batch) >= 0 {
+					progress, again = true, true
+					break
+				}
+			}
+		}
 		for sec := 1; sec >= 0; sec-- {
 			n := secLen(cur, sec)
 			var tr []edit
